@@ -50,6 +50,9 @@ type Entry struct {
 	Lines []string        `json:"lines"`
 	Map   [][]string      `json:"map"`
 	G     [][]interface{} `json:"g"` // [key, [8 getter results]]
+	// what the eight scalar getters say about <domain><> (the key whose name is empty); asked only in documents
+	// that contain a line with an empty key ("= v"), recorded for the oracle's observations, never judged
+	Ek []string `json:"ek"`
 }
 
 // Rec is one judged observation.
@@ -71,6 +74,8 @@ type Rec struct {
 	Q2  []Entry `json:"q2"`
 	// what two holders of "the same" listing saw after each appended to its own (not judged: observation)
 	Shared []string `json:"shared"`
+
+	askEmptyKey bool // the document has a line with an empty key
 }
 
 const (
@@ -327,6 +332,10 @@ func query(c *conf.Conf, rec *Rec, r *rand.Rand, held *holdings) (q []Entry, cla
 				e.G = append(e.G, []interface{}{k, g})
 			}
 		}
+		e.Ek = make([]string, 0)
+		if rec.askEmptyKey && len(p) > 0 {
+			e.Ek = getters(c, dom+"<>")
+		}
 		if len(e.Subs)+len(e.Keys)+len(e.Lines)+len(e.Map)+len(e.G) > 0 {
 			q = append(q, e)
 		}
@@ -483,6 +492,8 @@ func cmdDocs(args []string) error {
 				names[l.K] = true
 			case "kv", "hos", "key":
 				keys[l.K] = true
+			case "nokey":
+				rec.askEmptyKey = true
 			}
 		}
 		for n := range names {
